@@ -576,6 +576,15 @@ def acl_histories(r, thorough, types=("join", "publish", "read")):
             g.send(owner, frame("SET_CHAN_ACL", [("id", g.rid()), ("channel", ch), ("type", ty), ("action", "add"),
                                                     ("nids", r.choice([["localhost"], ["localhost", "other.example.org"], ["eve@other.example.org", "localhost"]]))]))
             g.send(owner, frame("GET_CHAN_ACL", [("id", g.rid()), ("channel", ch), ("type", ty)]))
+        behalf_first = ty == "join" and r.random() < 0.5
+        if behalf_first:
+            # the owner's own listing is made to differ from (some of) the users she then joins on their behalf, who are
+            # not members yet: the decision must follow the list for the user being joined, whoever asks
+            g.send(owner, frame("SET_CHAN_ACL", [("id", g.rid()), ("channel", ch), ("type", "join"),
+                                                    ("action", r.choice(["add", "remove"])), ("nids", ["alice@localhost"])]))
+            g.send(owner, frame("GET_CHAN_ACL", [("id", g.rid()), ("channel", ch), ("type", "join")]))
+            for u in r.sample(["bob", "carol", "dave"], 3):
+                g.send(owner, frame("JOIN", [("id", g.rid()), ("channel", ch), ("on_behalf", u + "@localhost")]))
         for u in USERS[1:]:
             if ty == "join":
                 g.send(ks[u], frame("JOIN", [("id", g.rid()), ("channel", ch)]))
@@ -584,7 +593,9 @@ def acl_histories(r, thorough, types=("join", "publish", "read")):
         if ty == "read":
             g.send(owner, frame("BROADCAST", [("id", g.rid()), ("channel", ch), ("length", 3)], b"xyz"))
         if ty == "join":
-            g.send(owner, frame("JOIN", [("id", g.rid()), ("channel", ch), ("on_behalf", "dave@localhost")]))
+            # the owner joins others on their behalf: the decision is about the user being joined, not about the owner
+            for u in r.sample(["bob", "carol", "dave"], 3):
+                g.send(owner, frame("JOIN", [("id", g.rid()), ("channel", ch), ("on_behalf", u + "@localhost")]))
         # whoever owns the channel now reads the list back (the others are refused)
         for u in USERS:
             g.send(ks[u], frame("GET_CHAN_ACL", [("id", g.rid()), ("channel", ch), ("type", ty)]))
@@ -959,6 +970,11 @@ def oversize_histories(r, thorough):
             g.send(ks[u], frame("JOIN", [("id", g.rid()), ("channel", big)]), [])
             if r.random() < 0.5:
                 g.send(ks[r.choice(pair)], frame("MEMBERS", [("id", g.rid()), ("channel", big)]), [])
+        if r.random() < 0.5:
+            # dave collects a few channels with long names: his CHANNELS listing no longer fits the buffer
+            for j in range(r.choice([2, 3])):
+                g.send(ks["dave"], frame("JOIN", [("id", g.rid()), ("channel", "!" + "d%d" % j * 40 + "@localhost")]), [])
+            g.send(ks["dave"], frame("CHANNELS", [("id", g.rid()), ("page_size", 50)]), [])
         for _ in range(r.randint(3, 8)):
             u = r.choice(["alice", long_user, "dave"])
             x = r.random()
